@@ -1304,7 +1304,7 @@ _SEQ_PATTERNS = {
 def _seq_select(ctx, seqs):
     """quick / thorough budget: every behaviour of at most 3 calls (observe - set - observe for each setter and value), and
     a VERIF_SEED-seeded sample of the longer ones if there are more than the budget"""
-    cap = 6000 if ctx.tier == "quick" else 60000
+    cap = 6000 if ctx.tier == "quick" else 80000
     if len(seqs) <= cap:
         return seqs, False
     short = [c for c in seqs if len(c["hist"]) <= 3]
@@ -1441,7 +1441,7 @@ def run(ctx):
                                          "forward(p1).gradient(p2)": lambda a, b: (a["a"] == "forward" and b["a"] == "gradient"
                                                                                    and a["val"]["th"] != b["val"]["th"])})):
                 mine = [c for c in sv if c["method"] == method and len(c["T"]) == nt and c["via"] == via]
-                if nt == 4 and via == "model" and ctx.tier == "quick":
+                if nt == 4 and via == "model":          # (three steps through the model: exact sensitivities exceed 32 bits, not emitted)
                     continue
                 missing = [name for name, pred in need.items() if not any(_seq_has(c, pred) for c in mine)]
                 if missing:
